@@ -7,6 +7,7 @@ arbitrary linear order; `torch.sort` / `torch.median` are oracles with the contr
 (ascending permutation, lower median `sorted[(n-1)/2]`), which the correspondence checks on every recorded node.
 -/
 import Xrfmv.Lemmas.RouteAgree
+import Xrfmv.Lemmas.RouteAgreeOk
 import Mathlib.Tactic.IntervalCases
 
 namespace Xrfmv.Props.C08
@@ -34,6 +35,18 @@ theorem train_route_agree (cfg : Cfg) (O : Oracles) (P : ProjOracles α)
     ∃ l ∈ (build cfg O fuel [] (List.range n) true 0).1.leaves,
       l.1 = routeTo P (build cfg O fuel [] (List.range n) true 0).1 [] x ∧ x ∈ l.2.1 ++ l.2.2 :=
   route_agree cfg O P hperm fuel [] (List.range n) true 0 hcons hok x (List.mem_range.mpr hx) hunt
+
+/-- **C08 (whole tree, without the `ok` hypothesis)** Without a forced split count and with fuel `n + 1`, the per-node
+contracts collected in `Consistent` already imply that the construction succeeds, so the agreement holds for every
+training sample that is untied along its predicted route. -/
+theorem train_route_agree_unconditional (cfg : Cfg) (O : Oracles) (P : ProjOracles α) (hns : cfg.nsplits = none)
+    (hperm : ∀ path n, IsPermOfRange (O.permO path n) n) (n : Nat)
+    (hcons : Consistent cfg O P (n + 1) [] (List.range n) 0)
+    (x : Nat) (hx : x < n) (hunt : Untied P (build cfg O (n + 1) [] (List.range n) true 0).1 [] x) :
+    ∃ l ∈ (build cfg O (n + 1) [] (List.range n) true 0).1.leaves,
+      l.1 = routeTo P (build cfg O (n + 1) [] (List.range n) true 0).1 [] x ∧ x ∈ l.2.1 ++ l.2.2 :=
+  train_route_agree cfg O P hperm (n + 1) n hcons
+    (ok_of_consistent cfg O P hns (n + 1) [] (List.range n) true 0 (by simp) hcons) x hx hunt
 
 /-- **C08 (validation points)** The caller's validation points are assigned to subtrees by the same predicate
 that prediction uses (both regenerated from the source: `projections_val <= train_median` and
